@@ -8,12 +8,17 @@ LinesOver(S) == UNION { [1..n -> S] : n \in 0..2 }
 FileOver(S, m) == UNION { [1..n -> LinesOver(S)] : n \in 0..m }
 VARIABLE files
 Mac(body) == [t |-> "m", c |-> 0, body |-> body]
-Init == files \in { <<a, b, c>> : a \in FileOver({It("x", 1), It("ei", 0), It("in", 2), It("in", 3),
-                                                       Mac(<<It("ei", 0), It("in", 3), It("x", 4)>>), Mac(<<It("x", 4), It("in", 2), It("x", 5)>>)}, 2),
-                                  b \in FileOver({It("x", 2), It("ei", 0), It("in", 3), It("in", 2)}, MaxLines2),
-                                  c \in FileOver({It("x", 3), It("ei", 0)}, 1) } /\ SInit
-Next == UNCHANGED <<files, str, op, dead>>
+\* the tree is chosen file by file (three steps): the set of all trees at once exceeds TLC's limit on
+\* enumerated sets in the thorough configuration
+Pool(k) == CASE k = 0 -> FileOver({It("x", 1), It("ei", 0), It("in", 2), It("in", 3),
+                                   Mac(<<It("ei", 0), It("in", 3), It("x", 4)>>), Mac(<<It("x", 4), It("in", 2), It("x", 5)>>)}, 2)
+             [] k = 1 -> FileOver({It("x", 2), It("ei", 0), It("in", 3), It("in", 2)}, MaxLines2)
+             [] OTHER -> FileOver({It("x", 3), It("ei", 0)}, 1)
+Init == files = <<>> /\ SInit
+Next == /\ Len(files) < 3
+        /\ \E f \in Pool(Len(files)) : files' = Append(files, f)
+        /\ UNCHANGED <<str, op, dead>>
 Spec == Init /\ [][Next]_<<files, str, op, dead>>
-MachineIsInline == Same(Inline(files), Run(files))
+MachineIsInline == Len(files) = 3 => Same(Inline(files), Run(files))
 NoFiles == <<>>
 =============================================================================
